@@ -256,7 +256,7 @@ impl StorageEngine {
         }
         
         let stored_value = StoredValue::with_expiration(Value::String(value), expires_in);
-        let expires_at = Instant::now() + expires_in;
+        let expires_at = crate::storage::value::instant_after(expires_in);
         shard_guard.expiring_keys.insert(key.clone(), expires_at);
         shard_guard.data.insert(key.clone(), stored_value);
         shard_guard.mark_modified(&key);
@@ -399,7 +399,7 @@ impl StorageEngine {
         
         if let Some(stored_value) = shard_guard.data.get_mut(key) {
             stored_value.metadata.set_expiration(expires_in);
-            shard_guard.expiring_keys.insert(key.to_vec(), Instant::now() + expires_in);
+            shard_guard.expiring_keys.insert(key.to_vec(), crate::storage::value::instant_after(expires_in));
             shard_guard.mark_modified(key);
             Ok(true)
         } else {
